@@ -31,7 +31,7 @@ NCHUNK = 16
 
 # which case families a property's check runs
 FAMILIES = {
-    "C01": ["dec"],
+    "C01": ["dec", "hist"],
     "C02": ["dec"],
     "C03": ["dec", "stream", "txt", "nid", "ck", "hist", "size", "acc", "eq", "deep"],
     "C04": ["dec", "hist", "acc"],
